@@ -26,7 +26,7 @@ const SIMULATED: &[&str] = &["network (frames of octet strings between roles)", 
 static C01: Check = Check {
     property: "C01",
     level: "exploration",
-    rule: "one run = 1-3 issuance sessions (suite, key material, key_info, header, L messages drawn per run) interleaved on an issuer and a holder thread, with neutral faults only (absent<->empty toggles, swap of equal messages, dup+drop, frame duplication, issuer/holder crash-restart with reload from octets/coordinates/JSON); a case = one (statement, delivered octets) pair that reached sign/verify; distinct = distinct SHA-256 of that content; in 1 run of 6: a free-running BURST (several nodes released into the library at the same time, outcomes judged by oracles that hold for any interleaving) of 3-5 keygen+sign+verify calls with L in {3..130} (4 KiB messages sometimes), each signature re-verified and re-signed serially afterwards; SIZE SWEEP: every run adds one honest flow whose list length is the run index modulo 300 (1200 thorough), so a batch walks through every length 0..299 for both suites; long lists carry repeated messages in 1 run of 3; the process runs with a log sink at Trace level; 1 run in 97 signs a message of 16 MiB + 1 octets; the thorough tier signs one credential of 17000 messages; every environment variable the library's sources read is set (64 octets of hex) before the first library call",
+    rule: "one run = 1-3 issuance sessions (suite, key material, key_info, header, L messages drawn per run) interleaved on an issuer and a holder thread, with neutral faults only (absent<->empty toggles, swap of equal messages, dup+drop, frame duplication, issuer/holder crash-restart with reload from octets/coordinates/JSON); a case = one (statement, delivered octets) pair that reached sign/verify; distinct = distinct SHA-256 of that content; in 1 run of 6: a free-running BURST (several nodes released into the library at the same time, outcomes judged by oracles that hold for any interleaving) of 3-5 keygen+sign+verify calls with L in {3..130} (4 KiB messages sometimes), each signature re-verified and re-signed serially afterwards; SIZE SWEEP: every run adds one honest flow whose list length is the run index modulo 300 (1200 thorough), so a batch walks through every length 0..299 for both suites; long lists carry repeated messages in 1 run of 3; the process runs with a log sink at Trace level; 1 run in 97 signs a message of 16 MiB + 1 octets; the thorough tier signs one credential of 17000 messages; every environment variable the library's sources read is set (64 octets of hex) before the first library call; the size-sweep flow also walks the header through 0 / 1 / 255 / 256 / 65535 / 65536 / 70000 / 2^20 octets and key_info through 0 / 1 / 255 / 256 / 65534 / 65535 octets (run index modulo 9 and 7)",
     quick_runs: 600,
     thorough_runs: 2000,
     run: scen_sig::run_c01,
@@ -34,7 +34,7 @@ static C01: Check = Check {
     real: REAL,
     simulated: SIMULATED,
     exhaustive_after: None,
-    probes: &["issuer_reload_after_restart", "holder_restart_before_verify", "preempted_inside.create_generators", "preempted_inside.messages_to_scalar"],
+    probes: &["issuer_reload_after_restart", "holder_restart_before_verify", "preempted_inside.create_generators", "preempted_inside.messages_to_scalar", "header_of_65536_octets_or_more", "key_info_of_65535_octets"],
 };
 static C02: Check = Check {
     property: "C02",
@@ -53,7 +53,7 @@ static C02: Check = Check {
 static C03: Check = Check {
     property: "C03",
     level: "exploration",
-    rule: "one run = 1-2 presentation sessions Issuer -> Holder -> Verifier; the Holder's proof_gen runs the production randomness path on its own thread fed by the node's deterministic entropy stream (with injected EINTR / short reads), possibly after a holder restart and with tick preemption inside create_generators / messages_to_scalar / calculate_random_scalars; disclosure sets: all 2^L subsets in rotation for L<=6, none/all/random for larger L; header, ph in {absent, empty, bytes}; neutral faults only on the Presentation frame (absent<->empty toggles, JSON codec, frame duplication, verifier restart); oracle MustAccept + proof length == 272+32U; a case = one delivered presentation; in 1 run of 8: a free-running BURST (several nodes released into the library at the same time, outcomes judged by oracles that hold for any interleaving) of 3-6 issuances followed by 2-7 back-to-back presentations per holder (L in {1,2,5,40,66,90}), every proof verified and round-tripped serially afterwards; SIZE SWEEP: every run adds one honest flow whose list length is the run index modulo 300 (1200 thorough), so a batch walks through every length 0..299 for both suites; long lists carry repeated messages in 1 run of 3; the process runs with a log sink at Trace level; JSON is decoded through serde_json::from_str, from_reader or from_value (picked by the length of the text); 1 run in 100: 400 draws of 2000 random scalars must all come back complete; 1 run in 100: an EXTREME-SIZE flow (2600 / 3200 messages signed, presented, verified on a thread with a 256 KiB stack) in a child process -- a child that dies is a violation",
+    rule: "one run = 1-2 presentation sessions Issuer -> Holder -> Verifier; the Holder's proof_gen runs the production randomness path on its own thread fed by the node's deterministic entropy stream (with injected EINTR / short reads), possibly after a holder restart and with tick preemption inside create_generators / messages_to_scalar / calculate_random_scalars; disclosure sets: all 2^L subsets in rotation for L<=6, none/all/random for larger L; header, ph in {absent, empty, bytes}; neutral faults only on the Presentation frame (absent<->empty toggles, JSON codec, frame duplication, verifier restart); oracle MustAccept + proof length == 272+32U; a case = one delivered presentation; in 1 run of 8: a free-running BURST (several nodes released into the library at the same time, outcomes judged by oracles that hold for any interleaving) of 3-6 issuances followed by 2-7 back-to-back presentations per holder (L in {1,2,5,40,66,90}), every proof verified and round-tripped serially afterwards; SIZE SWEEP: every run adds one honest flow whose list length is the run index modulo 300 (1200 thorough), so a batch walks through every length 0..299 for both suites; long lists carry repeated messages in 1 run of 3; the process runs with a log sink at Trace level; JSON is decoded through serde_json::from_str, from_reader or from_value (picked by the length of the text); 1 run in 100: 400 draws of 2000 random scalars must all come back complete; 1 run in 100: an EXTREME-SIZE flow (2600 / 3200 messages signed, presented, verified on a thread with a 256 KiB stack) in a child process -- a child that dies is a violation; 1 run in 4: PROOF SHAPE -- two credentials of L and L + d messages (the second with longer messages) presented with the same U: equal octet length and equal JSON shape (members, string lengths, numbers) of the serde text of the FRESH proof object, which must also verify through the serde decoder; the draw-count run asks one thread for 1.2 million scalars (quick) / 3 million (thorough)",
     quick_runs: 500,
     thorough_runs: 2000,
     run: scen_proof::run_c03,
@@ -61,12 +61,12 @@ static C03: Check = Check {
     real: REAL,
     simulated: SIMULATED,
     exhaustive_after: None,
-    probes: &["U=0", "R=0", "L=0", "EINTR_during_proof_gen", "short_read_during_proof_gen", "holder_restart_before_proof_gen", "proof_gen_drew_fresh_entropy", "preempted_inside.calculate_random_scalars", "preempted_inside.create_generators", "random_draw_count_volume", "extreme_size_in_a_child_process"],
+    probes: &["U=0", "R=0", "L=0", "EINTR_during_proof_gen", "short_read_during_proof_gen", "holder_restart_before_proof_gen", "proof_gen_drew_fresh_entropy", "preempted_inside.calculate_random_scalars", "preempted_inside.create_generators", "random_draw_count_volume", "extreme_size_in_a_child_process", "proof_shape_compared_across_credential_sizes"],
 };
 static C04: Check = Check {
     property: "C04",
     level: "fault_enumeration",
-    rule: "one run = one honest presentation, then the corrupting catalogue on the Presentation frame: bit flips of the 272 fixed octets in 16 slices (16 consecutive runs enumerate all 2176) plus all 256 bits of one m^ response; truncation/extension by whole scalars; dropped/inserted response; every single-element fault of the disclosed-message list; every integer corruption of every index; permuted / dropped / duplicated / added (index, message) pairs; 9 header and 9 ph faults; header<->ph swap; misroute to other suite / blind interface / other key / stored-pk bit flips; and Mallory's frames built from public data only (8 degenerate-element families x 3 claimed statements, through from_bytes and through the JSON decoder); verdict by content; a case = one delivered frame; every fourth run uses a list length from {128, 257, 64, 32, 129, 256, 33, 65, 127, 258, 63, 31, 255} (walked by the run index) with the edge edits (first / last element, append, cut the tail, swap across the list) plus a random sample instead of the complete catalogue, long lists disclosed completely; headers / presentation headers also of 4095, 4096, 4097 and 6000 octets; framing: lists sometimes start with x, x SEP x (SEP in NUL , newline 0x1f |), list faults include the boundary shift (last octet of element i to the front of element i + 1), headers are sometimes a non-canonical JSON object and octet faults insert a blank / a newline; Mallory's complete transcript without a signature (Abar = alpha*D, Bbar = beta*D, D = k*Bv: passes the challenge comparison, fails only the pairing); half of the forged frames are presented a second time to the same verifier thread; octet faults include the length-prefix edit (I2OSP(len, 8) in front of the string); ENCODING CONFUSION: one message replaced by the 32 octets / the serde form / the hex text of the scalar it maps to; Mallory's zero-response transcript (e^ = 0 over the honest Abar, Bbar with D = Bv of the claimed statement)",
+    rule: "one run = one honest presentation, then the corrupting catalogue on the Presentation frame: bit flips of the 272 fixed octets in 16 slices (16 consecutive runs enumerate all 2176) plus all 256 bits of one m^ response; truncation/extension by whole scalars; dropped/inserted response; every single-element fault of the disclosed-message list; every integer corruption of every index; permuted / dropped / duplicated / added (index, message) pairs; 9 header and 9 ph faults; header<->ph swap; misroute to other suite / blind interface / other key / stored-pk bit flips; and Mallory's frames built from public data only (8 degenerate-element families x 3 claimed statements, through from_bytes and through the JSON decoder); verdict by content; a case = one delivered frame; every fourth run uses a list length from {128, 257, 64, 32, 129, 256, 33, 65, 127, 258, 63, 31, 255} (walked by the run index) with the edge edits (first / last element, append, cut the tail, swap across the list) plus a random sample instead of the complete catalogue, long lists disclosed completely; headers / presentation headers also of 4095, 4096, 4097 and 6000 octets; framing: lists sometimes start with x, x SEP x (SEP in NUL , newline 0x1f |), list faults include the boundary shift (last octet of element i to the front of element i + 1), headers are sometimes a non-canonical JSON object and octet faults insert a blank / a newline; Mallory's complete transcript without a signature (Abar = alpha*D, Bbar = beta*D, D = k*Bv: passes the challenge comparison, fails only the pairing); half of the forged frames are presented a second time to the same verifier thread; octet faults include the length-prefix edit (I2OSP(len, 8) in front of the string); ENCODING CONFUSION: one message replaced by the 32 octets / the serde form / the hex text of the scalar it maps to; Mallory's zero-response transcript (e^ = 0 over the honest Abar, Bbar with D = Bv of the claimed statement); index lists the draft does not take: the INDEX list alone reordered with the messages as given (every swapped pair a false claim), one index listed twice with one message (R + 1 indexes, R messages)",
     quick_runs: 48,
     thorough_runs: 480,
     run: scen_proof::run_c04,
@@ -74,7 +74,7 @@ static C04: Check = Check {
     real: REAL,
     simulated: SIMULATED,
     exhaustive_after: Some(16),
-    probes: &["U=0", "R=0", "L=0", "list_length_at_a_power_of_two_edge"],
+    probes: &["U=0", "R=0", "L=0", "list_length_at_a_power_of_two_edge", "index_list_reordered_messages_as_given"],
 };
 
 static C08: Check = Check {
@@ -121,7 +121,7 @@ static C05: Check = Check {
 static C06: Check = Check {
     property: "C06",
     level: "fault_enumeration",
-    rule: "one run = one honest blind session (shape from the same 642-combination table), then: on the BlindRequest hop every bit flip of the commitment-with-proof in slices of 112 bits across runs, truncation/extension by whole scalars, dropped/inserted response, cross-suite replay, commitment/proof splices with a second honest request; on the BlindCredential hop every single-element fault of the committed and signer message lists, message moved across the signer/committed boundary, 32 blind-factor bit flips per run (8 runs cover all 256), blind factor removed, header faults, 40 signature bit flips, pk faults, misroute; on the Presentation hop L corruption, every list / index fault of both disclosed lists, pair moved between lists, header/ph faults, 64 proof bit flips per run, whole-scalar truncation/extension, misroute; verdict by content; every fourth run commits to 128, 64, 32, 129, 33, 65, 127, 63 or 31 messages (walked by the run index); Mallory also sends a commitment point OUTSIDE the subgroup (C + T, T of order 3) with a proof ground until the challenge kills c*T, one frame per residue of the challenge modulo 3; whole-scalar extensions also with blocks that are not canonical scalars (r, r + 4, all ones: after s^, before the challenge, appended); index aliasing across the signer-side and committed lists of a presentation",
+    rule: "one run = one honest blind session (shape from the same 642-combination table), then: on the BlindRequest hop every bit flip of the commitment-with-proof in slices of 112 bits across runs, truncation/extension by whole scalars, dropped/inserted response, cross-suite replay, commitment/proof splices with a second honest request; on the BlindCredential hop every single-element fault of the committed and signer message lists, message moved across the signer/committed boundary, 32 blind-factor bit flips per run (8 runs cover all 256), blind factor removed, header faults, 40 signature bit flips, pk faults, misroute; on the Presentation hop L corruption, every list / index fault of both disclosed lists, pair moved between lists, header/ph faults, 64 proof bit flips per run, whole-scalar truncation/extension, misroute; verdict by content; every fourth run commits to 128, 64, 32, 129, 33, 65, 127, 63 or 31 messages (walked by the run index); Mallory also sends a commitment point OUTSIDE the subgroup (C + T, T of order 3) with a proof ground until the challenge kills c*T, one frame per residue of the challenge modulo 3; whole-scalar extensions also with blocks that are not canonical scalars (r, r + 4, all ones: after s^, before the challenge, appended); index aliasing across the signer-side and committed lists of a presentation; index lists the draft does not take, on both lists: reordered alone, one index twice with one message; a disclosed committed pair (j, c) claimed through the signer lists as (L + 1 + j, c); a message moved across the boundary of the two message lists with the indexes untouched",
     quick_runs: 64,
     thorough_runs: 642,
     run: scen_blind::run_c06,
@@ -129,13 +129,13 @@ static C06: Check = Check {
     real: REAL,
     simulated: SIMULATED,
     exhaustive_after: None,
-    probes: &["list_length_at_a_power_of_two_edge", "off_subgroup_commitment_with_ground_challenge"],
+    probes: &["list_length_at_a_power_of_two_edge", "off_subgroup_commitment_with_ground_challenge", "index_list_reordered_messages_as_given", "committed_message_claimed_as_signer_message"],
 };
 
 static C07: Check = Check {
     property: "C07",
     level: "exploration",
-    rule: "one run = one credential (plain and blind) and K in 2..6 holder nodes, each on its own OS thread with its own entropy stream, each performing 2..6 generations (proof_gen, blind_proof_gen, commit, KeyPair::random + BlindFactor::random) on the SAME inputs, the first generation of every holder being the same operation, interleaved by the scheduler with tick preemption, holder crash-restart (fresh thread_rng) and EINTR / short reads in between; the wire monitor holds every witness and, over the whole history of the run, requires: recomputed blindings e~, m~_j, s~, cm~_i non-zero, >= 2^160 and pairwise distinct; responses, Abar, Bbar, D, commitments, blind factors, random keys never repeated; no 32/48-octet window of a proof or commitment equal to a hidden scalar, e, A, the blind factor; a case = one transcript; in 1 run of 4: a free-running BURST (several nodes released into the library at the same time, outcomes judged by oracles that hold for any interleaving) of 3-6 holders each doing 2-6 rounds of KeyPair::random + BlindFactor::random + commit + proof_gen + blind_proof_gen on the same inputs, all fed to the same history monitor; 1 run in 16 is a VOLUME run: 150000 batches of random scalars and 500000 random blind factors (400000 / 2000000 thorough) drawn on four threads at once, none zero, no two equal; every environment variable the library's sources read is set (64 octets of hex) before the first library call",
+    rule: "one run = one credential (plain and blind) and K in 2..6 holder nodes, each on its own OS thread with its own entropy stream, each performing 2..6 generations (proof_gen, blind_proof_gen, commit, KeyPair::random + BlindFactor::random) on the SAME inputs, the first generation of every holder being the same operation, interleaved by the scheduler with tick preemption, holder crash-restart (fresh thread_rng) and EINTR / short reads in between; the wire monitor holds every witness and, over the whole history of the run, requires: recomputed blindings e~, m~_j, s~, cm~_i non-zero, >= 2^160 and pairwise distinct; responses, Abar, Bbar, D, commitments, blind factors, random keys never repeated; no 32/48-octet window of a proof or commitment equal to a hidden scalar, e, A, the blind factor; a case = one transcript; in 1 run of 4: a free-running BURST (several nodes released into the library at the same time, outcomes judged by oracles that hold for any interleaving) of 3-6 holders each doing 2-6 rounds of KeyPair::random + BlindFactor::random + commit + proof_gen + blind_proof_gen on the same inputs, all fed to the same history monitor; 1 run in 16 is a VOLUME run: 150000 batches of random scalars and 500000 random blind factors (400000 / 2000000 thorough) drawn on four threads at once, none zero, no two equal; every environment variable the library's sources read is set (64 octets of hex) before the first library call; op 5: a presentation of a blind signature issued WITHOUT commitment by a holder without prover blind (the blind slot holds the scalar 0, its blinder is checked like every other); RANGE COVERAGE: at least one of the >= 64 fresh values of a run reaches 2^254 (45% of uniform scalars do), and in the volume run every leading octet 0x00..0x73 occurs",
     quick_runs: 300,
     thorough_runs: 1500,
     run: scen_fresh::run_c07,
@@ -143,13 +143,13 @@ static C07: Check = Check {
     real: REAL,
     simulated: SIMULATED,
     exhaustive_after: None,
-    probes: &["proof_with_more_than_32_random_scalars", "commitment_with_more_than_32_random_scalars", "commit_with_absent_list", "concurrent_burst", "volume_draws"],
+    probes: &["proof_with_more_than_32_random_scalars", "commitment_with_more_than_32_random_scalars", "commit_with_absent_list", "concurrent_burst", "volume_draws", "presentation_of_a_blind_signature_without_commitment"],
 };
 
 static C10: Check = Check {
     property: "C10",
     level: "exploration",
-    rule: "one run = 12..31 deterministic operations (KeyGen/SkToPk across the ikm, key_info and DST size limits; create_generators for counts 0..=64, 255..257 (1000+ thorough) and plain / blind / BLIND_ / empty / arbitrary api_ids; messages_to_scalars; hash_to_scalar across the DST limit; Sign with L up to 257 and headers across 255/256; BlindSign on a fixed request and without one; accept/reject decisions of verify, proof_verify, blind_sign(request), verify_blind_sign, blind_proof_verify on honest and singly mutated artefacts) spread over 1, 2-4, 5-8 or 16 nodes and interleaved by the scheduler with tick preemption; plus, in every run, create_generators for one count of the complete range 0..=64 (0..=1100 thorough) per suite, walking through the whole range with the run index; each result is compared with the executable spec model (octets and Ok/Err) and, for a sample, with the same operation alone on a fresh thread; the model must first reproduce all 110 fixture vectors; a case = one operation; in 1 run of 6 a burst of concurrent Generators::create on two fresh api_ids (one request of 100-220 overlapping 36 shorter ones) compared with the model during and after; in 1 run of 4 the MANY-KEYS WINDOW: a proof verification (2-41 messages) parked by forced preemption at phase:proof_verify_init and starved while 8-16 one-message proofs under other issuer keys are verified on three other nodes (the attacker's key last in 3 of 4), for an honest long proof (model accepts) and for a proof made from a signature computed with the attacker's secret over the issuer's domain (model rejects); Sign also under headers of 1023 .. 6000 octets, with one message of 1 .. 10 KiB, and for 32 / 33 / 64 / 65 / 128 / 129 / 258 messages; Sign and BlindSign also under a public key that is not the secret key's; in 1 run of 8 a COLD START: this engine re-executed as a child process in which 1, 2, 8 or 16 threads leave a barrier into the first library calls of the process (KeyGen + Sign + Verify + create_generators, or KeyPair::random + commit), every deterministic result compared with the model; decision operations also with the public key in its 192-octet coordinate form (the draft's octets_to_pubkey refuses it); Sign for 1024 .. 4097 messages now and then",
+    rule: "one run = 12..31 deterministic operations (KeyGen/SkToPk across the ikm, key_info and DST size limits; create_generators for counts 0..=64, 255..257 (1000+ thorough) and plain / blind / BLIND_ / empty / arbitrary api_ids; messages_to_scalars; hash_to_scalar across the DST limit; Sign with L up to 257 and headers across 255/256; BlindSign on a fixed request and without one; accept/reject decisions of verify, proof_verify, blind_sign(request), verify_blind_sign, blind_proof_verify on honest and singly mutated artefacts) spread over 1, 2-4, 5-8 or 16 nodes and interleaved by the scheduler with tick preemption; plus, in every run, create_generators for one count of the complete range 0..=64 (0..=1100 thorough) per suite, walking through the whole range with the run index; each result is compared with the executable spec model (octets and Ok/Err) and, for a sample, with the same operation alone on a fresh thread; the model must first reproduce all 110 fixture vectors; a case = one operation; in 1 run of 6 a burst of concurrent Generators::create on two fresh api_ids (one request of 100-220 overlapping 36 shorter ones) compared with the model during and after; in 1 run of 4 the MANY-KEYS WINDOW: a proof verification (2-41 messages) parked by forced preemption at phase:proof_verify_init and starved while 8-16 one-message proofs under other issuer keys are verified on three other nodes (the attacker's key last in 3 of 4), for an honest long proof (model accepts) and for a proof made from a signature computed with the attacker's secret over the issuer's domain (model rejects); Sign also under headers of 1023 .. 6000 octets, with one message of 1 .. 10 KiB, and for 32 / 33 / 64 / 65 / 128 / 129 / 258 messages; Sign and BlindSign also under a public key that is not the secret key's; in 1 run of 8 a COLD START: this engine re-executed as a child process in which 1, 2, 8 or 16 threads leave a barrier into the first library calls of the process (KeyGen + Sign + Verify + create_generators, or KeyPair::random + commit), every deterministic result compared with the model; decision operations also with the public key in its 192-octet coordinate form (the draft's octets_to_pubkey refuses it); Sign for 1024 .. 4097 messages now and then; decision mutations 15-19: index list reordered alone, index duplicated without its message, committed pair claimed as signer pair, one disclosed message more / fewer than indexes",
     quick_runs: 160,
     thorough_runs: 1500,
     run: scen_conform::run_c10,
@@ -162,7 +162,7 @@ static C10: Check = Check {
 static C11: Check = Check {
     property: "C11",
     level: "fault_enumeration",
-    rule: "one run = one honest session producing the five artefact kinds (signature, proof, commitment-with-proof, blind signature, blind proof) under (suite s, interface i); each is delivered to all endpoints (s', i') -- 3 foreign ones must reject, its own is the control -- complete matrix per run, run parity selects s; plus 6..13 Generators::create calls (counts 0..280, api_ids plain / blind / BLIND_ / none, both suites) spread over two nodes in a per-run order with tick preemption inside create_generators, checked for count, identity, P1, duplicates, prefix consistency with every earlier set of the same api_id and disjointness from every set of another api_id; a case = one delivery or one generator set; FORCED OVERLAPS in 2 runs of 3: a Generators::create of 40-199 on an api_id that is fresh in this process, parked at a generator index drawn per run while the other node requests 2-5 lists of 1-60 and then a longer one of the same api_id, every list compared with the model's; in 1 run of 2 the same on the merged blind generator list (prepare_parameters with 65-134 blind generators parked, 33-72 and longer ones meanwhile); in 1 run of 6 a burst of concurrent creates; api_ids that differ from the fresh one only by a trailing LF / CR LF / CR",
+    rule: "one run = one honest session producing the five artefact kinds (signature, proof, commitment-with-proof, blind signature, blind proof) under (suite s, interface i); each is delivered to all endpoints (s', i') -- 3 foreign ones must reject, its own is the control -- complete matrix per run, run parity selects s; plus 6..13 Generators::create calls (counts 0..280, api_ids plain / blind / BLIND_ / none, both suites) spread over two nodes in a per-run order with tick preemption inside create_generators, checked for count, identity, P1, duplicates, prefix consistency with every earlier set of the same api_id and disjointness from every set of another api_id; a case = one delivery or one generator set; FORCED OVERLAPS in 2 runs of 3: a Generators::create of 40-199 on an api_id that is fresh in this process, parked at a generator index drawn per run while the other node requests 2-5 lists of 1-60 and then a longer one of the same api_id, every list compared with the model's; in 1 run of 2 the same on the merged blind generator list (prepare_parameters with 65-134 blind generators parked, 33-72 and longer ones meanwhile); in 1 run of 6 a burst of concurrent creates; api_ids that differ from the fresh one only by a trailing LF / CR LF / CR; prepare_parameters under interface identifiers of the caller's own, four of six beginning with the label BLIND_ itself (BLIND_ || blind api_id, BLIND_AUCTION_V1_, BLIND_, BLIND_BLIND_x): the merged list equals create(n, a) ++ create(m, BLIND_ || a) of the model and repeats nothing",
     quick_runs: 120,
     thorough_runs: 1200,
     run: scen_domain::run_c11,
@@ -170,7 +170,7 @@ static C11: Check = Check {
     real: REAL,
     simulated: SIMULATED,
     exhaustive_after: Some(2),
-    probes: &["forced_overlap_on_fresh_api_id", "long_request_parked_while_others_ran", "forced_overlap_on_blind_generators"],
+    probes: &["forced_overlap_on_fresh_api_id", "long_request_parked_while_others_ran", "forced_overlap_on_blind_generators", "interface_id_that_begins_with_the_blind_label"],
 };
 static C12: Check = Check {
     property: "C12",
